@@ -26,10 +26,11 @@ structure View where
   /-- `Leaves.get(ith)`; `none` when `Leaves == nil` -/
   leafBytes : Nat → Except Err (Option Bytes)
 
-/-- `getLabelIdxOfKey` -/
+/-- `getLabelIdxOfKey`.  A 257-bit node reads the whole byte `key[i>>3]` that CONTAINS position
+    `i` (for an even `i` — always, in a built trie — this is the two half-bytes from `i`). -/
 def labelIdxOfKey (kn : List Nat) (i : Nat) (big : Bool) : Nat :=
   if i < kn.length then
-    if big then 1 + (kn.getD i 0 * 16 + kn.getD (i + 1) 0) else 1 + kn.getD i 0
+    if big then 1 + (kn.getD (i - i % 2) 0 * 16 + kn.getD (i - i % 2 + 1) 0) else 1 + kn.getD i 0
   else 0
 
 /-- number of labels below `ith` : `OnesCount(bm & Mask[ithBit])` / the rank difference -/
@@ -66,7 +67,8 @@ def getIDLoop (v : View) (kn : List Nat) : Nat → Nat → Nat → Except Err (O
       let step : Except Err (Option Nat) :=
         match r.pref with
         | .stored p =>
-          if i > l then .error (.panic "slice bounds out of range: key[i>>3:]")
+          -- `key[i>>3:]` panics iff `i>>3 > len(key)`
+          if i / 2 > l / 2 then .error (.panic "slice bounds out of range: key[i>>3:]")
           else if cmpUpto (kn.drop (i - i % 2)) p != .eq then .ok none
           else .ok (some (i - i % 2 + p.length))
         | .step n => .ok (some (i + n))
@@ -95,7 +97,7 @@ def getID (v : View) (key : Bytes) : Except Err (Option Nat) := do
         match r.lp with
         | none => return none
         | some lp =>
-          if r.i > kn.length then .error (.panic "slice bounds out of range: key[i>>3:]")
+          if r.i / 2 > kn.length / 2 then .error (.panic "slice bounds out of range: key[i>>3:]")
           else return (if lp == key.drop (r.i / 2) then some r.id else none)
     else return some r.id
 
@@ -153,7 +155,7 @@ def searchLoop (v : View) (kn : List Nat) : Nat → SearchSt → Nat → Except 
       let step : Except Err (Sum SearchSt Nat) :=
         match r.pref with
         | .stored p =>
-          if i > l then .error (.panic "slice bounds out of range: key[i>>3:]") else
+          if i / 2 > l / 2 then .error (.panic "slice bounds out of range: key[i>>3:]") else
           match cmpUpto (kn.drop (i - i % 2)) p with
           | .eq => .ok (.inr (i - i % 2 + p.length))
           | .lt => .ok (.inl { st with rID := some eqID, eqID := none })
